@@ -115,6 +115,36 @@ MANIFEST_TEXT["C11"] = {
     "design_ref": "DESIGN.md section 3 / C11",
 }
 
+PLAN["C13"] = {
+    "pkg": "c13",
+    "tests": [
+        {"name": "TestNumberRoundTrip", "quick": (400000, 4), "thorough": (16000000, 16)},
+        {"name": "TestDateTimeRoundTrip", "quick": (400000, 8), "thorough": (16000000, 16)},
+        {"name": "TestJSONRoundTrip", "quick": (200000, 4), "thorough": (8000000, 16)},
+    ],
+    "budget": {"quick": 600, "thorough": 5400},
+    "rule": "(a) decimals of any sign, scale 0-30 and magnitude to 10^+-400 (plain and exponent notation, trailing zeros, -0): "
+            "ToXNumber(ToXText(n)) == n, JSON form reads back equal, '=' agrees with rendering equality and numeric equality; (b) instants "
+            "with local years 1-9999 in 16 tz-database zones x 3 date formats x 4 time formats x 16 environment zones: ISO rendering parses "
+            "back to the same instant at microsecond precision (zones with sub-minute offsets skipped and counted), environment-format "
+            "rendering parses back to the same wall-clock value at the rendered precision, likewise for the date part and the time of day; "
+            "(c) JSON documents (nesting <= 4, unicode escapes, big/exponent numbers, duplicate and case-variant keys): "
+            "json(parse_json(doc)) is JSON-equivalent under a reference comparison (encoding/json + UseNumber, numbers as decimals, last "
+            "duplicate wins). Non-trivial = number with fraction/exponent, instant rendered in a zone with non-zero offset, document with "
+            "nesting >= 2 or special keys/numbers; distinct by case text.",
+    "assumptions": COMMON_ASSUMPTIONS + [
+        "environment-format round trips are compared on wall-clock fields (the formats carry no offset; DST-overlap instants are ambiguous by construction)",
+        "environment language left at its default (the quantifier lists date/time formats, not languages)",
+        "lone surrogates in JSON escapes are not generated",
+    ],
+}
+MANIFEST_TEXT["C13"] = {
+    "technique": "property-based testing (rapid): round-trip oracles render->parse for numbers, datetimes/dates/times in every format environment, and a reference JSON-equivalence comparison for json(parse_json(doc))",
+    "level_text": "Exploration: every generated number, instant and JSON document survived its text/JSON form under the stated comparison; the reserved __default__ key is a listed finding.",
+    "level_note": "Trusts Go's time package / tzdata for wall-clock arithmetic, shopspring/decimal for numeric equality and encoding/json as reference JSON reader.",
+    "design_ref": "DESIGN.md section 3 / C13",
+}
+
 # every property without a registered check is listed here with the reason (kept current as checks are added)
 NOT_APPLICABLE = [{"property_id": pid, "reason": "check not built yet in this round (planned in DESIGN.md); nothing is claimed for it"}
                   for pid in ALL_IDS if pid not in PLAN]
